@@ -26,6 +26,7 @@ META = {
     "not_decided": "tokio's lock fairness / wake-on-release (contract)",
 }
 META["explanation"] += ' R16.4 every Ready(Some(..)) the async poll paths build is dominated by the call of the poll leaf (so its closed test and version bookkeeping run first). R16.5 an effect (state method, sibling method, wait for an update) that the sync twin performs on every completing path is performed on every completing path of the async method as well (cut check on the coroutine body; a closure that performs the effect counts where it is constructed).'
+META["explanation"] += ' Shared with C19: R19.10 (re-arm before foreign code).'
 
 POLLISH = ("poll_next_ref", "poll_update", "poll_next_nopin")
 
@@ -281,6 +282,13 @@ def run(ctx):
         wakers.check_poll_fn(ctx, "R16.3", f, sites)
         wakers.check_rearm(ctx, "R16.3", f, sites)
     ctx.floor("R16.3", k, 2)
+    # a panic in foreign code (the value's Clone) between the completed lock future and its re-arm leaves a finished future behind:
+    # every later poll panics, where the default flavour keeps delivering
+    kk = 0
+    for f, sites in wakers.poll_fns(F, (EY,)):
+        if "async_lock" in f.path:
+            kk += wakers.check_rearm_immediate(ctx, "R19.10", f, sites)
+    ctx.floor("R19.10", kk, 1)
     # the C01-C04 rule sets on this (async) configuration
     for m in (c01, c02, c03):
         m.run(ctx)
